@@ -32,3 +32,8 @@ PROPS["C19"] = dict(pkg="chain", level="exploration", stages=[
 PROPS["C14"] = dict(pkg="chain", level="exploration", stages=[
     rapid("rapid", "TestC14", dict(shards=16, checks=250), dict(shards=16, checks=8000, timeout=7000)),
 ])
+
+PROPS["C13"] = dict(pkg="chain", level="exploration", stages=[
+    direct("distance", "TestC13Distance"),
+    rapid("rapid", "TestC13", dict(shards=16, checks=150), dict(shards=16, checks=5000, timeout=7000)),
+])
